@@ -22,6 +22,9 @@ class NotLinear(Exception):
 def linearize(nf, atom, pol, int_vars, positive=()):
     """(coeffs {var: int}, const int, op) with op in {'<', '<=', '==', '!='} meaning
     sum + const op 0, for the literal (atom, pol)."""
+    if atom[0] == 'op' and atom[1] == 'ovf_sub' and len(atom[2]) == 3 and atom[2][2][0] == 'str' and atom[2][2][1].startswith('u'):
+        # an unsigned subtraction of in-range operands overflows exactly when a < b
+        atom = T.op('lt', atom[2][0], atom[2][1])
     if atom[0] != 'op' or atom[1] not in ('lt', 'le', 'eq') or len(atom[2]) != 2:
         raise NotLinear(T.show(atom))
     try:
